@@ -14,7 +14,11 @@ CONSTANTS Mode,      \* "unary" (cond / exists / condm), "binary" (and or xor if
           Sample,    \* keep 1 function out of Sample (1 = all)
           Seed
 VARIABLE f
-Tag(g) == LET s == IF g = {} THEN 0 ELSE CHOOSE m \in g : \A x \in g : x <= m IN (Cardinality(g) * 7 + s * 13 + Seed) % Sample
+(* sampling by the rank of the function among all functions (its truth table read as a binary number): every residue class *)
+(* modulo Sample is inhabited, whatever the seed                                                                         *)
+Tag(g) == LET RECURSIVE Rank(_)
+              Rank(h) == IF h = {} THEN 0 ELSE LET a == CHOOSE x \in h : TRUE IN 2 ^ a + Rank(h \ {a})
+          IN ((Rank(g) % 251) * 13 + (Rank(g) \div 251) + Seed) % Sample
 Fns == {g \in SUBSET Assign : Tag(g) = 0}
 AllF == SUBSET Assign
 J(op, args, g, h, exp) == PrintT(ToJson([op |-> op, a |-> args, f |-> f, g |-> g, h |-> h, exp |-> exp]))
